@@ -1184,6 +1184,24 @@ class Interp:
             v = ev(1)
             self.push(arg_nodes[0], v, env, front=True)
             return UNIT
+        mre = re.search(r"(?:slice::<impl \[T\]>|Vec::<T, A>|VecDeque::<T, A>)::(sort|sort_by|sort_by_key|sort_by_cached_key|sort_unstable|sort_unstable_by|sort_unstable_by_key|reverse|rotate_left|rotate_right|dedup|dedup_by|dedup_by_key|retain|retain_mut|swap|swap_remove|truncate)$", g)
+        if mre and arg_nodes:
+            # in-place reordering / thinning of a sequence: what is iterated afterwards is no longer the sequence that
+            # was built — the place now holds `reordered:<how>(old)`, so that a loop over it does not pass for a loop
+            # over the original
+            tgt = core.strip(arg_nodes[0])
+            while tgt.get("k") in ("AddrOf", "Unary") or (tgt.get("k") == "MethodCall" and tgt["m"] in ("as_mut_slice", "as_mut", "deref_mut", "make_contiguous") and not tgt["args"]):
+                tgt = core.strip(tgt["e"] if "e" in tgt else tgt["recv"])
+            if tgt.get("k") in ("Field",) or (tgt.get("k") == "Path" and tgt.get("res") == "local"):
+                try:
+                    old = self.eval(tgt, env)
+                    for i in range(1, len(arg_nodes)):
+                        if core.strip(arg_nodes[i]).get("k") != "Closure":
+                            ev(i)
+                    self.assign(tgt, ("app", "reordered:" + mre.group(1), (old,)), env)
+                    return UNIT
+                except Unsupported:
+                    pass
         if re.search(r"(::len|::count)$", g) and len(arg_nodes) == 1:
             v = ev(0)
             if v[0] == "stream":
